@@ -20,14 +20,23 @@ def do_case(ctx, inp):
     g = real_poly(p, ids)
     if ctx.tags["call-did-not-return"] >= 3:
         ctx.skip("not run: three earlier calls did not return"); return
-    try:
-        with time_limit(5):
+    def first_calls(limit):
+        with time_limit(limit):
             rr = [int(bool(v)) for v in np.asarray(g.reducable_rows()).tolist()]
             rc = nan_list(g.reducable_columns_approx())
             frows, fcols = g.reducable_rows_and_columns()
             frows_l = [int(v) for v in np.asarray(frows).tolist()]
             fcols_l = nan_list(fcols)
             R = g.reduce(frows, fcols)
+        return rr, rc, frows, fcols, frows_l, fcols_l, R
+    try:
+        try:
+            rr, rc, frows, fcols, frows_l, fcols_l, R = first_calls(5)
+        except CallTimeout:
+            # these calls take milliseconds; before calling it non-termination, rule out a stalled machine
+            ctx.tags["call-slower-than-5s-retried"] += 1
+            g = real_poly(p, ids)
+            rr, rc, frows, fcols, frows_l, fcols_l, R = first_calls(60)
     except CallTimeout as e:
         # the fixpoint loop of reducable_rows_and_columns terminates on every input (theorem C11.loop_inv is stated for any
         # fuel; the model's loop needs at most rows+cols+1 rounds): not returning is a failure of the reduction
@@ -78,7 +87,7 @@ def do_case(ctx, inp):
     # the same polyhedron object reduced once more after the calls above: the statement holds for every call, so the
     # oracle below judges the later result whenever it differs from the first
     try:
-        with time_limit(5):
+        with time_limit(60):
             fr2, fc2 = g.reducable_rows_and_columns()
             RB = g.reduce(fr2, fc2)
     except CallTimeout as e:
